@@ -46,12 +46,23 @@ def gen_committed(rng, n, reject):
     return G
 
 
-def cut(rng, ents, proposer_rate):
-    """Cut a list of entries into `sm apply` lines."""
+def cut(rng, ents, proposer_rate, local_failure=False):
+    """Cut a list of entries into `sm apply` lines.  `local_failure`: before one of the calls the application is made to
+    fail on this node only; that call is the last of the lifetime."""
     lines = []
     i = 0
+    ncalls = 0
+    fail_at = rng.randint(0, max(0, len(ents) // 3)) if local_failure else -1
     while i < len(ents):
         k = rng.choice([1, 1, 2, 3, 5, 8])
+        if ncalls == fail_at and any(cmd_text(p) is not None for (_, _, p) in ents[i:i + k]):
+            lines.append("sm failnext")
+            toks = ["%d:%d:%s%s" % (idx, term, p, ":r" if rng.random() < proposer_rate else "") for (idx, term, p) in ents[i:i + k]]
+            lines.append("sm apply " + " ".join(toks))
+            return lines
+        if ncalls == fail_at:
+            fail_at += 1
+        ncalls += 1
         toks = []
         for (idx, term, p) in ents[i:i + k]:
             toks.append("%d:%d:%s%s" % (idx, term, p, ":r" if rng.random() < proposer_rate else ""))
@@ -71,7 +82,7 @@ def gen_node_program(rng, G, lifetimes):
     for lt in range(lifetimes):
         lines.append("sm new")
         k = rng.randint(0, len(G))
-        lines += cut(rng, G[:k], proposer_rate)
+        lines += cut(rng, G[:k], proposer_rate, local_failure=rng.random() < 0.15)
         lines.append("sm state")
         if lt < lifetimes - 1:
             lines.append("restart")
@@ -158,6 +169,7 @@ class NodeOracle:
         self.kv = {}
         self.applied = "-"
         self.member = "-/0"
+        self.fail_next = False
 
     def expect_state(self):
         return "applied=%s membership=%s cmds=[%s] kv=[%s]" % (
@@ -176,6 +188,9 @@ class NodeOracle:
             return None if out == "err:closed" else "no adapter in this process, yet %s -> %s" % (line, out)
         if self.dead:
             return None
+        if t[1] == "failnext":
+            self.fail_next = True
+            return None if out == "ok" else "sm failnext -> %s" % out
         if t[1] == "state":
             exp = self.expect_state()
             return None if out == exp else "node reports\n    %s\n  fed entries say\n    %s" % (out, exp)
@@ -189,6 +204,12 @@ class NodeOracle:
             self.applied = "%s:%s" % (idx, term)
             ans = ""
             c = cmd_text(p)
+            if c is not None and self.fail_next:
+                # the application fails on this node before taking the command: the call must return the error
+                # (a node that went on would have skipped a command the other nodes apply)
+                self.fail_next = False
+                ok = False
+                break
             if c is not None:
                 self.cmds.append(c)
                 if p[0] == "s":
@@ -317,7 +338,7 @@ def check_c19(ctx):
         log("ran %d programs on the real adapter in %.1fs" % (len(programs), time.time() - t0))
         ndis = nvio = 0
         hist = {"programs": len(programs), "clusters": nclusters, "apply_calls": 0, "entries_fed": 0, "with_responder": 0,
-                "restarts": 0, "states_checked": 0, "rejected_commands": 0, "pairs_compared": 0, "membership_entries": 0,
+                "restarts": 0, "node_local_failures": 0, "states_checked": 0, "rejected_commands": 0, "pairs_compared": 0, "membership_entries": 0,
                 "blank_entries": 0, "committed_sequence_lengths": {str(k): glen.count(k) for k in sorted(set(glen))}}
         samples = []
         seen = set()
@@ -333,6 +354,7 @@ def check_c19(ctx):
                     hist["membership_entries"] += sum(1 for x in t[2:] if x.split(":")[2].startswith("m"))
                     hist["blank_entries"] += sum(1 for x in t[2:] if x.split(":")[2] == "b")
             hist["restarts"] += lines.count("restart")
+            hist["node_local_failures"] += lines.count("sm failnext")
             hist["states_checked"] += lines.count("sm state")
             hist["rejected_commands"] += sum(1 for o in outs if o.startswith("err resp"))
             key = "\n".join(lines)
